@@ -184,8 +184,8 @@ func CheckC13(opt C13Options) int {
 		unit Unit
 		desc string
 	}
-	cases := make([]caseT, nProj)
-	for i := range cases {
+	cases := make([]caseT, nProj, nProj+4096)
+	for i := 0; i < nProj; i++ {
 		r := core.Sub(opt.Seed, "c13", "proj", i)
 		p, d := GenC13Project(r, corpus)
 		be := "native"
@@ -202,6 +202,23 @@ func CheckC13(opt C13Options) int {
 			tools = "real"
 		}
 		cases[i] = caseT{Unit{Project: p, Backend: be, Plan: pl, KeepGen: r.Chance(1, 2), Tools: tools}, d}
+	}
+
+	// truncation sweep: the kitchen-sink program (and one imported copy of it) cut at
+	// every step-th token boundary, alone and with tails that close nothing
+	step, tails := 2, 2
+	if opt.Tier == "thorough" {
+		step, tails = 1, 6
+	}
+	sweep := TruncationSweep(core.Sub(opt.Seed, "c13", "sweep"), KitchenSink, step, tails)
+	for si, p := range sweep {
+		if si%5 == 4 {
+			// the truncated text as an IMPORTED module: the loop runs in a parser goroutine
+			p = Project{Dir: "q", Entry: "main.fer", Files: map[string]string{"main.fer": "import \"std/io\";\nimport \"q/lib\";\nfn main() {\n    io::Println(1);\n}\n", "lib.fer": p.Files["main.fer"]}}
+		}
+		pl := Canonical()
+		pl.MaxY = maxY
+		cases = append(cases, caseT{Unit{Project: p, Backend: "native", Plan: pl, KeepGen: false, Tools: "stub"}, "truncation-sweep"})
 	}
 
 	rep, err := NewReporter("C13", opt.Seed, b)
